@@ -84,7 +84,7 @@ def check_C01(ctx, rep):
     n = effect.check_guarded_reads(ctx, rep, [f for f in _alg_funcs(ctx, ['nfa_algorithms']) if not f.name.endswith('_in_place')])
     if n < 1:
         raise AnalysisError('no NFA transition-map read found')
-    _closed(ctx, rep, ['nfa_algorithms.nfa_accepts_word'], 2)
+    _closed(ctx, rep, ['nfa_algorithms.nfa_accepts_word'], 1)
     order.check_independence(ctx, rep, F(ctx, 'dfa_algorithms.dfa_accepts_word', 'nfa_algorithms.nfa_accepts_word', 'nfa_algorithms.epsilon_closure', 'nfa_algorithms._nfa_cache'))
     state.check_hidden_state(ctx, rep, modules=['nfa_algorithms', 'dfa_algorithms'])
     build.check_invariants(ctx, rep)
@@ -111,7 +111,7 @@ def check_C02(ctx, rep):
     dispatch.check_ext_tables(ctx, rep, [P('notebook.language_parser'), P('make_notebook.parse_language_file')])
     misc.check_tm_budget(ctx, rep, [P('tm_algorithms.tm_accepts_word'), P('tm_algorithms.tm_simulate_word'), P('tm_algorithms.tm_words_up_to_n')], P('tm_algorithms.tm_words_up_to_n'))
     state.check_config_reads(ctx, rep)
-    _closed(ctx, rep, ['nfa_algorithms.nfa_words_up_to_n', 'pda_algorithms.pda_words_up_to_n'], 3)
+    _closed(ctx, rep, ['nfa_algorithms.nfa_words_up_to_n', 'pda_algorithms.pda_words_up_to_n'], 1)
     _worklists_in(ctx, rep, ['nfa_algorithms.epsilon_closure', 'pda_algorithms.pda_epsilon_closure'])
     cyk.check_cnf_use(ctx, rep, P('cfg_algorithms.cfg_words_up_to_n'))
     # the TM enumerator decides membership by running the machine: the single-step function is part of it
@@ -134,7 +134,7 @@ def check_C03(ctx, rep):
     effect.check_guarded_reads(ctx, rep, [g for g in reach.values() if g.module.base == 'nfa_algorithms.py' and not g.name.endswith('_in_place')])
     state.check_hidden_state(ctx, rep, modules=['nfa_algorithms'])
     work.check_marker_alias(ctx, rep, ctx.prog.func('nfa_algorithms.nfa_to_dfa'))
-    _closed(ctx, rep, ['nfa_algorithms.nfa_to_dfa'], 3)
+    _closed(ctx, rep, ['nfa_algorithms.nfa_to_dfa'], 1)
     models.check_alphabet_preserved(ctx, rep, F(ctx, 'nfa_algorithms.nfa_to_dfa'))
     rep.clauses_decided.append('the DFA is built over the declared alphabet of the NFA, not over the symbols that happen to label transitions (R-ALPHA)')
     if closed.check_subset_names(ctx, rep, ctx.prog.func('nfa_algorithms.nfa_to_dfa')) < 2:
@@ -151,8 +151,8 @@ def check_C04(ctx, rep):
         raise AnalysisError('quotient refinement loop vanished')
     _worklists_in(ctx, rep, ['dfa_algorithms.dfa_hopfcroft'])
     mins = F(ctx, 'dfa_algorithms.dfa_minimize', 'dfa_algorithms.dfa_quotient', 'dfa_algorithms.dfa_hopfcroft')
-    if sum(work.check_representatives(ctx, rep, m) for m in mins) < 2:
-        raise AnalysisError('fewer than 2 uses of block representatives found in the minimisers')
+    if sum(work.check_representatives(ctx, rep, m) for m in mins) < 1:
+        raise AnalysisError('no use of a block representative found in the minimisers')
     misc.check_index_agreement(ctx, rep, ctx.prog.func('dfa_algorithms.dfa_minimize'))
     work.check_one_shot_iterators(ctx, rep, mins)
     work.check_consumed_twice(ctx, rep, mins)
@@ -308,7 +308,9 @@ def _conversion_kernel(ctx, rep):
         raise AnalysisError('nullable fixpoint loop vanished')
     df = ctx.prog.func('cfg_algorithms.cfg_derivable_variables')
     if not (work.check_snapshot_fixpoint(ctx, rep, df) or work.check_flag_fixpoint(ctx, rep, df) + work.check_size_fixpoint(ctx, rep, df)):
-        raise AnalysisError('unit-closure fixpoint loop vanished')
+        # ... or a worklist search over the unit successors
+        if not work.check_worklists(ctx, rep, [df], kinds=('search',)):
+            raise AnalysisError('unit-closure fixpoint loop vanished')
     n = _fresh_in(ctx, rep, ['cfg_algorithms.cfg_add_new_start_variable_in_place', 'cfg_algorithms.cfg_make_rules_of_length_two_in_place',
                              'cfg_algorithms.cfg_eliminate_terminals_in_place'], providers=['cfg_algorithms.cfg_fresh_variable'])
     if n < 3:
@@ -347,7 +349,7 @@ def check_C09(ctx, rep):
         raise AnalysisError('fewer than 4 pda_pop_push call sites found')
     if pda_rules.check_stack_step(ctx, rep, ctx.prog.func('pda_algorithms.pda_can_pop_push'), ctx.prog.func('pda_algorithms.pda_pop_push')) < 2:
         rep.note('stack step outside the finite model')
-    _closed(ctx, rep, ['pda_algorithms.pda_accepts_word'], 2)
+    _closed(ctx, rep, ['pda_algorithms.pda_accepts_word'], 1)
     _effect_on(ctx, rep, ['pda_algorithms.pda_epsilon_closure', 'pda_algorithms.pda_do_transition', 'pda_algorithms.pda_accepts_word',
                           'pda_algorithms.pda_pop_push', 'pda_algorithms.pda_can_pop_push'], shared=False)
 
@@ -369,9 +371,10 @@ def check_C10(ctx, rep):
             raise AnalysisError('push/pop case split not evaluated')
     pda_rules.check_pda_to_cfg_pipeline(ctx, rep, P('pda_algorithms.pda_to_cfg'))
     pda_rules.check_push_pop_predicate(ctx, rep, P('pda_algorithms.pda_is_push_pop'))
-    pda_rules.check_empty_stack_form(ctx, rep, P('pda_algorithms.pda_to_accept_on_empty_stack_in_place'))
-    if pda_rules.check_added_transitions_push_pop(ctx, rep, P('pda_algorithms.pda_to_accept_on_empty_stack_in_place')) < 2:
-        raise AnalysisError('transition insertion sites of the empty-stack form vanished')
+    if not pda_rules.check_empty_stack_model(ctx, rep, P('pda_algorithms.pda_to_accept_on_empty_stack_in_place')):
+        pda_rules.check_empty_stack_form(ctx, rep, P('pda_algorithms.pda_to_accept_on_empty_stack_in_place'))
+        if pda_rules.check_added_transitions_push_pop(ctx, rep, P('pda_algorithms.pda_to_accept_on_empty_stack_in_place')) < 2:
+            raise AnalysisError('transition insertion sites of the empty-stack form vanished')
     _effect_on(ctx, rep, ['pda_algorithms.pda_to_cfg', 'pda_algorithms.pda_to_push_pop', 'pda_algorithms.pda_to_accept_on_empty_stack', 'pda_algorithms.pda_is_push_pop'])
 
 
@@ -571,7 +574,7 @@ def check_C15(ctx, rep):
         work.check_marker_alias(ctx, rep, ctx.prog.func(sp))
     P = ctx.prog.func
     models.check_dfa_sim_column(ctx, rep, P('dfa_algorithms.dfa_simulate_word'))
-    _closed(ctx, rep, ['nfa_algorithms.nfa_simulate_word', 'pda_algorithms.pda_simulate_word'], 4)
+    _closed(ctx, rep, ['nfa_algorithms.nfa_simulate_word', 'pda_algorithms.pda_simulate_word'], 2)
     closed.check_history(ctx, rep, P('nfa_algorithms.nfa_simulate_word'))
     closed.check_history(ctx, rep, P('pda_algorithms.pda_simulate_word'))
     models.check_backward_word(ctx, rep, P('nfa_algorithms.nfa_simulate_word'))
@@ -606,7 +609,7 @@ def check_C18(ctx, rep):
         raise AnalysisError('NFA constructor sites of the building blocks vanished')
     fresh.check_eps_translation(ctx, rep, ctx.prog.func('nfa_algorithms._add_nfa_transitions'))
     # the language of a result is what nfa_accepts_word says about it: its decisions are taken on epsilon-closed sets
-    _closed(ctx, rep, ['nfa_algorithms.nfa_accepts_word'], 2)
+    _closed(ctx, rep, ['nfa_algorithms.nfa_accepts_word'], 1)
     P = ctx.prog.func
     U, C, R_ = P('nfa_algorithms.nfa_union'), P('nfa_algorithms.nfa_concatenation'), P('nfa_algorithms.nfa_repetition')
     two = lambda x: {'A': {'N1.' + x}, 'B': {'N2.' + x}}
